@@ -114,7 +114,14 @@ def run(tier, seed, build):
             ii = rl.strip_calls(im["rounds"][0])
             if mm != ii:
                 res.disagreements.append({"case": case, "impl": ii, "model": mm})
-        # property oracle on the implementation's output
+        # property oracle on the implementation's output. A deviation from the closure is a KNOWN
+        # defect only if the Lean model of the pinned code (whose defects are proved as counterexample
+        # theorems) predicts exactly the same result for that root; otherwise it is new behaviour.
+        model_by_key = {}
+        if "__error__" not in mo and mo.get("outcome") == "ok":
+            for r in rl.canon_model_round(mo["rounds"][0])["results"]:
+                model_by_key[r["key"]] = r
+        impl_by_key = {r["key"]: r for r in im["rounds"][0]["results"]}
         for k, bad, feats in rl.judge_results(snap, sigs, im["rounds"][0]):
             fl = "clean" if not feats else "+".join(sorted(feats))
             if bad is None:
@@ -125,6 +132,9 @@ def run(tier, seed, build):
                 res.count("verdict:interp:python-rejected-call")
             else:
                 sig = signature_of(bad, feats)
+                mr, ir_ = model_by_key.get(k), impl_by_key.get(k)
+                if mr is None or any(mr[x] != ir_[x] for x in ("gets", "sets", "dels")):
+                    sig = "closure-violated:not-the-pinned-behaviour:" + sig.split(":", 1)[1]
                 res.count("verdict:" + sig)
                 res.violations.append({"signature": sig, "case": case, "root": snap["fns"][k]["name"],
                                        "detail": bad[2], "features": fl})
